@@ -65,7 +65,7 @@ def coq_files():
         return [l.strip() for l in f if l.strip().endswith(".v")]
 
 
-def build_all(need_harness=True):
+def build_all(need_harness=True, race=False):
     """Rebuild everything that depends on /repo's working tree. Returns a dict
     with per-stage status; never raises for a stage that /repo can break."""
     st = {"stages": {}, "ok": True}
@@ -84,13 +84,30 @@ def build_all(need_harness=True):
         st["stages"]["vextract_run"] = {"rc": rc, "s": round(dt, 1), "out": out[-3000:]}
     if rc != 0:
         st["ok"] = False
-    # 1b. access inventory (C17) if the extractor exists
-    if os.path.isdir(os.path.join(HARNESS, "cmd", "vaccess")):
-        rc2, out2, dt2 = sh(["go", "build", "-o", os.path.join(BUILD, "vaccess"), "./cmd/vaccess"],
-                            cwd=HARNESS, env=GOENV, timeout=600)
+    # 1b. access / lock inventory of the client package (C17): regenerated whenever the client sources change
+    acc_v = os.path.join(COQ, "Gen", "Access.v")
+    acc_json = os.path.join(BUILD, "access.json")
+    h = hashlib.sha256()
+    for fn in sorted(glob.glob(os.path.join(REPO, "go", "client", "*.go")) + glob.glob(os.path.join(HARNESS, "cmd", "vaccess", "*.go"))):
+        h.update(fn.encode())
+        h.update(open(fn, "rb").read())
+    stamp = os.path.join(BUILD, "access.stamp")
+    if not (os.path.exists(acc_v) and os.path.exists(acc_json) and os.path.exists(stamp) and open(stamp).read() == h.hexdigest()):
+        rc2, out2, dt2 = sh(["go", "build", "-o", os.path.join(BUILD, "vaccess"), "./cmd/vaccess"], cwd=HARNESS, env=GOENV, timeout=600)
         if rc2 == 0:
-            rc2, out2, dt2 = sh([os.path.join(BUILD, "vaccess"), os.path.join(REPO, "go", "client"),
-                                 os.path.join(COQ, "Gen", "Access.v")], timeout=120)
+            rc2, out2, dt2 = sh([os.path.join(BUILD, "vaccess"), os.path.join(REPO, "go", "client"), acc_v + ".new", acc_json],
+                                env=GOENV, timeout=300)
+        if rc2 == 0:
+            if not os.path.exists(acc_v) or open(acc_v).read() != open(acc_v + ".new").read():
+                os.replace(acc_v + ".new", acc_v)
+            else:
+                os.remove(acc_v + ".new")
+            open(stamp, "w").write(h.hexdigest())
+        else:
+            # no inventory of the current source: C17's theorem must not be checked against a stale one
+            open(acc_v, "w").write("(* vaccess failed on the current source *)\nDefinition inventory_unavailable := tt.\n")
+            if os.path.exists(stamp):
+                os.remove(stamp)
         st["stages"]["vaccess"] = {"rc": rc2, "s": round(dt2, 1), "out": out2[-3000:]}
     # 2. Coq
     if not os.path.exists(os.path.join(COQ, "Makefile.coq")) or \
@@ -128,6 +145,12 @@ def build_all(need_harness=True):
         st["stages"]["vharness_build"] = {"rc": rc, "s": round(dt, 1), "out": out[-3000:]}
         if rc != 0:
             st["ok"] = False
+        if race:
+            rc, out, dt = sh(["go", "build", "-race", "-tags", "verif", "-o", os.path.join(BUILD, "vharness-race"), "./cmd/vharness"],
+                             cwd=HARNESS, env=GOENV, timeout=900)
+            st["stages"]["vharness_race_build"] = {"rc": rc, "s": round(dt, 1), "out": out[-3000:]}
+            if rc != 0:
+                st["ok"] = False
     return st
 
 
@@ -206,7 +229,7 @@ def proof_status(prop):
     return res
 
 
-def run_harness(prop, tier, seed, extra=None, timeout=3000):
+def run_harness(prop, tier, seed, extra=None, timeout=3000, race=False):
     d = os.path.join(BUILD, "run", prop)
     os.makedirs(d, exist_ok=True)
     cases = os.path.join(d, "cases.txt")
@@ -214,11 +237,16 @@ def run_harness(prop, tier, seed, extra=None, timeout=3000):
     for f in (cases, stats):
         if os.path.exists(f):
             os.remove(f)
-    cmd = [os.path.join(BUILD, "vharness"), "-tier", tier, "-seed", str(seed), "-out", cases, "-stats", stats]
+    cmd = [os.path.join(BUILD, "vharness-race" if race else "vharness"), "-tier", tier, "-seed", str(seed), "-out", cases, "-stats", stats]
+    env = GOENV
+    if race:
+        for f in glob.glob(os.path.join(d, "race.*")):
+            os.remove(f)
+        env = dict(GOENV, GORACE="halt_on_error=0 history_size=5 log_path=" + os.path.join(d, "race"))
     if extra:
         cmd += extra
     cmd.append(prop)
-    rc, out, dt = sh(cmd, cwd=d, env=GOENV, timeout=timeout)
+    rc, out, dt = sh(cmd, cwd=d, env=env, timeout=timeout)
     st = None
     if os.path.exists(stats):
         try:
@@ -231,7 +259,48 @@ def run_harness(prop, tier, seed, extra=None, timeout=3000):
         if i >= 0 and rc != 0:
             keep = out[max(0, i - 500):i + 5500]
             break
-    return {"rc": rc, "out": keep, "s": round(dt, 1), "cases": cases, "stats": st}
+    res = {"rc": rc, "out": keep, "s": round(dt, 1), "cases": cases, "stats": st}
+    if race:
+        res["races"] = parse_races(glob.glob(os.path.join(d, "race.*")))
+        if rc == 66:          # the race runtime's exit code when it reported something
+            res["rc"] = 0
+    return res
+
+
+LIB = "github.com/longportapp/openapi-protocol/go"
+
+
+def parse_races(files):
+    """distinct race reports: the two access stacks, reduced to (operation, frames...). A report counts against the
+    library when both accesses are reached through library code (the innermost library frame of each stack is kept)."""
+    seen, out = {}, []
+    for f in files:
+        for blk in open(f, errors="replace").read().split("==================\n"):
+            if "DATA RACE" not in blk:
+                continue
+            parts = [p for p in blk.split("\n\n") if p.strip()]
+            acc = []
+            for p in parts[:2]:
+                lines = [l for l in p.splitlines() if l.strip() and "WARNING: DATA RACE" not in l]
+                if not lines:
+                    continue
+                op = lines[0].split(" at ")[0].strip()
+                frames = [l.strip() for l in lines[1:] if l.startswith("  ") and not l.startswith("      ")]
+                locs = [l.strip().split(" ")[0] for l in lines[1:] if l.startswith("      ")]
+                lib = [(fr, lc) for fr, lc in zip(frames, locs) if LIB in fr and "/verif/" not in lc]
+                acc.append({"op": op, "top": frames[0] if frames else "?", "top_at": locs[0] if locs else "?",
+                            "library_frame": lib[0][0] if lib else None, "library_at": lib[0][1] if lib else None})
+            if len(acc) < 2:
+                continue
+            in_lib = all(a["library_frame"] for a in acc)
+            sig = "|".join(sorted("%s@%s" % (a["library_frame"] or a["top"], (a["library_at"] or a["top_at"]).rsplit("/", 1)[-1]) for a in acc))
+            if sig in seen:
+                seen[sig]["count"] += 1
+                continue
+            r = {"sig": sig, "count": 1, "in_library": in_lib, "accesses": acc, "report": blk[:6000]}
+            seen[sig] = r
+            out.append(r)
+    return out
 
 
 def run_model(cases, timeout=3000):
@@ -311,3 +380,26 @@ def write_json(path, obj):
 
 def sha(s):
     return hashlib.sha1(s.encode()).hexdigest()[:10]
+
+
+
+def unprotected_pairs():
+    """for the replay only (the decision is Coq's): the conflicting site pairs of the current inventory that share no
+    lock - same definition as Model/Races.v pair_ok, evaluated on build/access.json."""
+    try:
+        sites = json.load(open(os.path.join(BUILD, "access.json")))["sites"]
+    except Exception:
+        return []
+    def conflicting(a, b):
+        return a["loc"] == b["loc"] and (a["write"] or b["write"]) and not (a["atomic"] and b["atomic"]) \
+            and not a["init"] and not b["init"]
+    def protects(a, b):
+        return any(l in b["locks"] and not (m == 1 and b["locks"][l] == 1) for l, m in a["locks"].items())
+    out = []
+    for a in sites:
+        for b in sites:
+            if a["id"] <= b["id"] and conflicting(a, b) and not protects(a, b):
+                out.append("%s: %s %s [%s] vs %s %s [%s]" % (
+                    a["loc"], "write" if a["write"] else "read", a["pos"], ",".join(sorted(a["locks"])) or "no lock",
+                    "write" if b["write"] else "read", b["pos"], ",".join(sorted(b["locks"])) or "no lock"))
+    return out
